@@ -402,7 +402,9 @@ def oracle(sc, obs):
                 same = (len(g[3]) == len(lens)) if obs.deflate else (list(g[3]) == list(lens))
                 inj_during = any(x[4] == "ok" and x[1] == (src == "server") and
                                  sent[k]["t0"] <= x[0] <= (sent[k]["t1"] or x[0]) + 0.001 for x in obs.injected)
-                if not same and inj_during:
+                # (a text message cut inside a code point whose fragment COUNT is kept is the boundary-shift defect
+                #  reported below, whether or not an injection happened meanwhile)
+                if not same and inj_during and not (kind == "text" and inside and len(g[3]) == len(lens)):
                     v.append(_V("injection_merged_with_partial_message", {},
                                 f"{d}: a message was injected while the {src}'s {kind} message #{i} (fragments {lens}) was only "
                                 f"partly received; its fragments arrived as {g[3]} (frame buffer shared with the injected message)"))
